@@ -21,7 +21,8 @@ THEOREMS = ["Ymq.C10." + t for t in (
     "product_tree_spec from_roots_spec multi_eval_tree_spec multi_eval_spec multi_eval_zmod roots_eval_direct_spec "
     "mul_spec fft_spec mulfft_spec mulfft_exact kronecker_cyclic_fft roots_eval_spec roots_eval_zmod crt_q_estimate fint_mul_karatsuba crt_spec ntt_roots_spec ntt_inplace_spec ntt_pipeline_spec crt_call_bound from_mint_spec pprods_modn_spec convolve_modn_ntt_spec "
     "mont_ops_hom fft_longmul_refines fft_midmul_refines mul_fft_end_to_end longmul_ntt_end_to_end "
-    "middlemul_ntt_end_to_end div_mod_xn_mont multi_eval_mont roots_eval_mont").split()]
+    "middlemul_ntt_end_to_end div_mod_xn_mont multi_eval_mont roots_eval_mont "
+    "mont_fin_hom fft_longmul_word_eq fft_midmul_word_eq").split()]
 HYPOTHESES = []
 PROFILES = ["release", "chk"]
 TIMEOUT = 60.0
@@ -73,11 +74,12 @@ UNMODELLED = [
     "ZmodN::{mul, add, sub, redc, redc_large} are exact modular arithmetic on residues on the domain proved in C07 (redc_large_spec, "
     "add_spec, redc_spec); MInt == is equality of residues (MInts are reduced: C07); mg_mul/mg_redc are the word-exact C07 models; "
     "arith::inv_mod64 (C08) is the mathematical inverse",
-    "convolve_modn_ntt: the word-level model (Ymq/Model/Ntt.lean) is proved end to end (convolve_modn_ntt_spec) and K/O-compared up to "
-    "size 1024 (beyond: the driver answers with the specification model); NOT done: the arith_poly models (Ymq/Model/PolySeries.lean) "
-    "still take the NTT path of _longmul/_middlemul as the exact convolution over abstract coefficient operations, the refinement of "
-    "that step by convolve_modn_ntt_spec (Montgomery MInt operations vs natOps) is not stated; the debug_assert sanity check of the "
-    "roots at the end of MultiZmodP::new is not modelled; Poly::mul_fft has no mechanism model",
+    "the arith_poly models are generic over coefficient operations and are RUN by the driver with natOps n (plain residues); the "
+    "Montgomery operations the code runs (montOps / montFin, value level as proved in C07) are instances for the theorems but are not "
+    "run by the driver; the models call the exact step fftLongmul/fftMidmul by name: that it is the code's _fft_longmul/_fft_midmul "
+    "over the word-level convolve_modn_ntt is the extensional equality fft_longmul_word_eq / fft_midmul_word_eq (every input), the "
+    "models are not re-expressed with the word-level step inside; convolve_modn_ntt is K/O-compared through the word-level model up to "
+    "size 1024 (beyond: specification model); the debug_assert sanity check of the roots at the end of MultiZmodP::new is not modelled",
     "bnum U1024/U2048 operators are modelled as Nat arithmetic; memory safety of get_unchecked is not modelled",
 ]
 
@@ -1198,7 +1200,11 @@ CLAIM = ("Lean theorems, for all inputs, about executable models of arith_fft.rs
          "forms of v mod p_j (from_mint_spec, with the rpowers table), pprods_modn[q] = -qP mod n (pprods_modn_spec), and COMPOSED: "
          "convolve_modn_ntt_spec: for n > 0 of at most 512 bits, logsize <= 31, size = 2^K, 1 <= K <= logsize, operands of residues < n, "
          "the word-level model of convolve_modn_ntt (from_mint + bit-reversed scatter, transforms, mul, swap loop, inverse, _crt, zn.redc) "
-         "reaches no panic site and returns the Montgomery form of the cyclic convolution modulo n. (4) arith_poly over any commutative-ring image of the coefficient operations, no panic site reached: _basic_mul and "
+         "reaches no panic site and returns the Montgomery form of the cyclic convolution modulo n. PRODUCTION PATH: the Montgomery ZmodN "
+         "operations are an instance of all arith_poly theorems (mont_ops_hom, mont_fin_hom; div_mod_xn_mont, multi_eval_mont, "
+         "roots_eval_mont), and the exact NTT step the arith_poly models call equals on every input the code's _fft_longmul/_fft_midmul "
+         "over the word-level convolve_modn_ntt (fft_longmul_word_eq, fft_midmul_word_eq; fft_longmul_refines, fft_midmul_refines; one "
+         "statement each for mul_fft_end_to_end, longmul_ntt_end_to_end, middlemul_ntt_end_to_end). (4) arith_poly over any commutative-ring image of the coefficient operations, no panic site reached: _basic_mul and "
          "karatsuba (all operand lengths after the fix, buffer reuse, stale buffers) = product; _middlemul (HQZ) = middle slice; "
          "_inv_mod_xn / div_mod_xn (Newton, after the fix) = series inverse / quotient; _product_tree / from_roots = product of (x - r_i); "
          "_multi_eval / multi_eval = values at all points; roots_eval = prod_i (b_j - a_i) in both branches for |b| >= 2 (Barrett reduction "
@@ -1208,11 +1214,14 @@ CLAIM = ("Lean theorems, for all inputs, about executable models of arith_fft.rs
          "models (K) and judged by an independent Python schoolbook/big-integer oracle (O).")
 LEVEL_NOTE = ("Trusted: Lean kernel (+propext, Classical.choice, Quot.sound); the hand-written models' correspondence to the Rust code (sampled by "
               "the harness in both profiles, not proved); the translator for the dispatch table and the prime table; Python integers in the oracle. "
-              "convolve_modn_ntt is proved end to end at word level (convolve_modn_ntt_spec) but the arith_poly models still take their NTT "
-              "path as the exact convolution over abstract coefficient operations: that refinement step (Montgomery MInt arithmetic of the "
-              "code vs the plain residues natOps of the driver) is not stated, so the production path of arith_poly is covered by the two "
-              "theorems side by side, not by one statement; K/O compare the whole word-level model up to size 1024. "
-              "NO THEOREM: Poly::mul_fft, roots_eval with |b| = 1. "
+              "Production path of arith_poly: the models take the NTT step as the exact convolution by name; mont_ops_hom / mont_fin_hom make "
+              "the Montgomery ZmodN operations (value level, C07) an instance of every arith_poly theorem, and fft_longmul_word_eq / "
+              "fft_midmul_word_eq prove that this exact step, at the typed Montgomery operations, equals ON EVERY INPUT the code's "
+              "_fft_longmul / _fft_midmul over the word-level convolve_modn_ntt (convolve_modn_ntt_spec), so nothing about the NTT is assumed "
+              "any more; one-statement forms are given for mul_fft, _longmul (NTT branch) and Poly::middlemul (power-of-two branch); for the "
+              "recursive routines (series, trees, multi_eval, roots_eval) the composition is by extensional equality of the step, the models "
+              "are not re-expressed with the word-level step inside. The driver runs the models with natOps (plain residues), not montOps. "
+              "NO THEOREM: roots_eval with |b| = 1. "
               "crt_spec covers _crt (mg_mul64, quotient estimate, column loop, carry assert) on the tables of the model of MultiZmodP::new; "
               "from_mint, redc, pprods_modn[q] = -qP mod n, and that V < P/2 for the values _crt is called on, are checked by K/O (mzp_new, "
               "mzp_from_mint, mzp_crt, mzp_redc) only. The arith_poly theorems are about models over abstract "
